@@ -274,4 +274,29 @@ Proof.
   rewrite forallb_app. rewrite harmless_evs_of by exact Hr2. exact Hjunk.
 Qed.
 
+(** the same with "the replay returned nil" in place of "every intact record replays" *)
+Theorem good_prefix_applied_code0 : forall fs rs owner r1 body r2 junk t,
+  Forall wf_rec (r1 ++ RTG body :: r2) ->
+  t = tg_id_of body -> t <> 0 ->
+  forallb (harmless_rec t) r2 = true ->
+  let good := rec_status fs rs owner ++ enc (r1 ++ RTG body :: r2) in
+  let bs := good ++ junk in
+  forallb (harmless t) (events md5 (length bs - length (r1 ++ RTG body :: r2)) bs (length good)) = true ->
+  NoDup (keys (frames md5 bs)) ->
+  r_code (replay_bytes md5 root apply_ok bs) = 0%nat ->
+  exists n, In (t, n) (r_applied (replay_bytes md5 root apply_ok bs)).
+Proof.
+  intros fs rs owner r1 body r2 junk t Hwf Ht Ht0 Hr2 good bs Hjunk Hnd Hc0.
+  pose proof (frames_good_prefix fs rs owner (r1 ++ RTG body :: r2) junk Hwf) as Hfr.
+  cbv zeta in Hfr. fold good in Hfr. fold bs in Hfr.
+  assert (Hsplit : forall l1 l2 pos, evs_of pos (l1 ++ l2) = evs_of pos l1 ++ evs_of (pos + length (enc l1)) l2).
+  { induction l1 as [|r l1 IH]; intros l2 pos; cbn [app evs_of enc flat_map length].
+    - now rewrite Nat.add_0_r.
+    - fold (enc l1). rewrite IH. rewrite app_length. cbn [app]. f_equal. f_equal. f_equal. lia. }
+  rewrite Hsplit in Hfr. cbn [evs_of ev_of] in Hfr. rewrite <- Ht in Hfr.
+  rewrite <- app_assoc in Hfr. cbn [app] in Hfr.
+  eapply (intact_framed_applied_code0 md5 root apply_ok bs (EvSkip 11 :: evs_of 11 r1)); [exact Hfr | exact Ht0 | exact Hnd | | exact Hc0].
+  rewrite forallb_app. rewrite harmless_evs_of by exact Hr2. exact Hjunk.
+Qed.
+
 End Frame.
